@@ -43,6 +43,7 @@ pub struct RandomCfg {
     pub weak: bool,
     pub fin_ops: bool,
     pub auto: bool,
+    pub clean: bool,
 }
 
 pub struct RandomDir {
@@ -63,6 +64,8 @@ pub struct FaultPlan {
     pub seen_trace: u32,
     pub seen_finalize: u32,
     pub seen_drop: u32,
+    /// operations to perform inside callbacks: key "<kind>:<id>" -> queue of operations
+    pub inops: std::collections::HashMap<String, std::collections::VecDeque<Value>>,
 }
 
 pub enum Dir {
@@ -78,6 +81,13 @@ thread_local! {
 
 pub fn set(d: Dir) {
     DIR.with(|x| *x.borrow_mut() = d);
+}
+
+pub fn take_inops() -> std::collections::HashMap<String, std::collections::VecDeque<Value>> {
+    DIR.with(|d| match &mut *d.borrow_mut() {
+        Dir::Script(p) => std::mem::take(&mut p.inops),
+        _ => Default::default(),
+    })
 }
 
 pub fn with_random<R>(f: impl FnOnce(&mut RandomDir) -> R) -> Option<R> {
@@ -172,6 +182,12 @@ pub fn next_in_cb<P: Pad>(kind: CbKind, o: u32) -> Decision {
         2 => random_in_cb::<P>(kind, o),
         3 => DIR.with(|d| match &mut *d.borrow_mut() {
             Dir::Script(p) => {
+                let key = format!("{}:{}", kind.name(), o);
+                if let Some(q) = p.inops.get_mut(&key) {
+                    if let Some(op) = q.pop_front() {
+                        return Decision::Do(op);
+                    }
+                }
                 let (seen, plan) = match kind {
                     CbKind::Finalize => (&mut p.seen_finalize, p.finalize),
                     CbKind::Drop => (&mut p.seen_drop, p.drop),
@@ -219,6 +235,15 @@ fn random_in_cb<P: Pad>(kind: CbKind, o: u32) -> Decision {
     }
 }
 
+#[cfg(feature = "clean")]
+fn cleanable_ids<P: Pad>(w: &World<P>) -> Vec<u32> {
+    w.cleanables.keys().copied().collect()
+}
+#[cfg(not(feature = "clean"))]
+fn cleanable_ids<P: Pad>(_w: &World<P>) -> Vec<u32> {
+    Vec::new()
+}
+
 fn pick<T: Copy>(rng: &mut StdRng, v: &[T]) -> Option<T> {
     if v.is_empty() {
         None
@@ -252,6 +277,25 @@ fn gen_cb_op<P: Pad>(r: &mut RandomDir, w: &mut World<P>, kind: CbKind, me: u32)
             1 if r.cfg.weak && w.nw > 0 => Some(json!({"e": "call", "op": "upgradef", "a": me, "k": "w", "i": rng.gen_range(1..=w.nw)})),
             2 => pick(rng, &roots).map(|o| json!({"e": "call", "op": "unwrap", "o": o})),
             3 if cfg!(feature = "fin") => pick(rng, &roots).map(|o| json!({"e": "call", "op": "fagain", "o": o})),
+            _ => None,
+        };
+    }
+    if kind == CbKind::Action {
+        let c = rng.gen_range(0..12);
+        let cs = cleanable_ids(w);
+        return match c {
+            0..=1 => pick(rng, &cs).map(|c| json!({"e": "call", "op": "clean", "c": c})),
+            2 => Some(json!({"e": "call", "op": "collect"})),
+            3 => {
+                if (roots.len() as u32) < r.cfg.max_objs {
+                    Some(json!({"e": "call", "op": "new", "o": w.next_id}))
+                } else {
+                    None
+                }
+            }
+            4..=5 => pick(rng, &roots).map(|o| json!({"e": "call", "op": "drop", "o": o})),
+            6 if r.cfg.weak => pick(rng, &wroot_ids(w)).map(|o| json!({"e": "call", "op": "upgrade", "o": o})),
+            7 => pick(rng, &roots).map(|o| json!({"e": "call", "op": "unwrap", "o": o})),
             _ => None,
         };
     }
@@ -366,7 +410,22 @@ pub fn gen_top_op<P: Pad>(r: &mut RandomDir, w: &mut World<P>) -> Option<Value> 
             let (k, i) = slot(rng, w);
             pick(rng, &roots).map(|a| json!({"e": "call", "op": "clonef", "a": a, "k": k, "i": i}))
         }
-        140..=143 => pick(rng, &roots).map(|o| json!({"e": "call", "op": "mark", "o": o})),
+        140..=141 => pick(rng, &roots).map(|o| json!({"e": "call", "op": "mark", "o": o})),
+        142..=143 if cfg!(feature = "clean") && r.cfg.clean => {
+            let k = rng.gen_range(0..10);
+            if k < 5 {
+                let a = pick(rng, &roots)?;
+                let t = if rng.gen_bool(0.5) { pick(rng, &roots).filter(|t| *t != a || w.roots.get(t).map_or(0, |v| v.len()) >= 2).unwrap_or(0) } else { 0 };
+                w.next_action += 1;
+                Some(json!({"e": "call", "op": "register", "a": a, "c": w.next_action, "t": t}))
+            } else if k < 9 {
+                let cs: Vec<u32> = cleanable_ids(w);
+                pick(rng, &cs).map(|c| json!({"e": "call", "op": "clean", "c": c}))
+            } else {
+                let cs: Vec<u32> = cleanable_ids(w);
+                pick(rng, &cs).map(|c| json!({"e": "call", "op": "dropcl", "c": c}))
+            }
+        }
         144..=145 => {
             let (k, i) = slot(rng, w);
             let a = pick(rng, &roots)?;
